@@ -191,6 +191,10 @@ def run_loop_table(ctx):
             loops = [e for e in p.events if e.kind == 'loop' and fmt(e.iter) == 'self.sim_engine']
             if len(loops) != 1:
                 raise Undecided('run has one loop over self.sim_engine (found %d)' % len(loops))
+            for e_ in p.events:
+                if e_.kind == 'loop' and e_ is not loops[0] and any(x_.kind == 'call' and any(c_ in marks for c_ in x_.callee) for q_ in e_.paths for x_ in q_.flat_events()):
+                    # the marked steps (also) run in another loop - over a generator that feeds the events, say: which event each belongs to is not read here
+                    val.unknown.append('unread: marked steps run in a loop over %s' % (fmt(e_.iter)[:60] if e_.iter is not None else 'an unread sequence'))
             for b in loops[0].paths:
                 seq = []
                 for e in b.flat_events():
@@ -206,6 +210,10 @@ def run_loop_table(ctx):
                             and 'BacktestTradingSession._update_equity_curve' not in ctx.M.funcs:
                         # the sampler under another name (read through as a private step): the append to the curve is the action
                         seq.append(('equity', None))
+                for c_, v_, s_ in b.conds:
+                    if any(z_[0] == 'call' and z_[1] == ('ext', 'APPLY') for z_ in T.subterms(c_)):
+                        # a test that applies a value as a function (all(check(dt) for check in (self._a, self._b))): which checks run is not read
+                        val.unknown.append('unread: a test applies a value as a function: %s' % fmt(c_)[:80])
                 und = [c for c, v, s in b.conds if T.tkey(c) not in ()]
                 acts.add((tuple(seq), b.outcome))
         out.append((dict(signals=not sig_none, event=et, burn_in=burn, rebalance=reb, print_events=pr,
